@@ -217,7 +217,7 @@ pub fn property() -> Property {
             Box::new(Sub {
                 name: "differential",
                 rule: "for each of the 36 names, factory-built decoder vs the generic decoder constructed directly from the named arithmetic type and schedule, on a separating family of inputs (C01 classes + strong LLRs 9..16.2 with sign flips so that degree-one clipping, Jones clipping, partial hard limiting, f32 saturation and schedule differences matter; H up to 10 x 14; limits {0,1,2,3,5,10}); outputs must be identical; non-trivial = a case on which at least two of the 36 direct decoders disagree; inner evaluations = compared decoder pairs",
-                cases: |t| t.pick(12_000, 600_000),
+                cases: |t| t.pick(100_000, 3_000_000),
                 strategy,
                 check: check_diff,
                 health: &[("implementations-disagree", 0.30)],
@@ -232,7 +232,7 @@ pub fn property() -> Property {
             Box::new(Sub {
                 name: "rejection",
                 rule: "generated non-members: case changes, surrounding/inner whitespace, HL prefix added to any name, random prefixes/suffixes, single-character deletions, insertions, transpositions and replacements of each name, random short strings; FromStr and ValueEnum::from_str(_, false) must reject; strings that happen to be members are counted separately",
-                cases: |t| t.pick(40_000, 2_000_000),
+                cases: |t| t.pick(400_000, 10_000_000),
                 strategy: |_| nonmember().boxed(),
                 check: check_reject,
                 health: &[],
